@@ -165,13 +165,29 @@ pub fn encode_chunked(body: &[u8], sizes: &[usize]) -> Vec<u8> {
 
 /// TCP client socket bound to a chosen local port before connecting (the attribution record is keyed
 /// by that port). `port` 0 lets the kernel choose; the chosen port is returned.
+/// Bind a client socket on 127.0.0.1. `port` 0 = a free port; the kernel hands out only odd ports to
+/// bind(0) (even ones are kept for connect()), so every other call moves to the even neighbour: real
+/// callers connect without binding and arrive from even ports.
 pub fn bind_local(port: u16) -> Result<(i32, u16), String> {
+    static FLIP: std::sync::atomic::AtomicU64 = std::sync::atomic::AtomicU64::new(0);
+    let (fd, p) = bind_exact(port, true)?;
+    if port == 0 && FLIP.fetch_add(1, std::sync::atomic::Ordering::Relaxed) % 2 == 1 {
+        // without SO_REUSEADDR: refused if anything (an open connection, a TIME_WAIT remnant) still holds the neighbour
+        if let Ok((fd2, p2)) = bind_exact(p ^ 1, false) {
+            unsafe { libc::close(fd) };
+            return Ok((fd2, p2));
+        }
+    }
+    Ok((fd, p))
+}
+
+fn bind_exact(port: u16, reuse: bool) -> Result<(i32, u16), String> {
     unsafe {
         let fd = libc::socket(libc::AF_INET, libc::SOCK_STREAM | libc::SOCK_CLOEXEC, 0);
         if fd < 0 {
             return Err(format!("socket: {}", std::io::Error::last_os_error()));
         }
-        let one: libc::c_int = 1;
+        let one: libc::c_int = if reuse { 1 } else { 0 };
         libc::setsockopt(fd, libc::SOL_SOCKET, libc::SO_REUSEADDR, &one as *const _ as *const libc::c_void, 4);
         let mut addr: libc::sockaddr_in = std::mem::zeroed();
         addr.sin_family = libc::AF_INET as u16;
